@@ -390,7 +390,7 @@ class SimpleCorrelator(AbstractCorrelator):
             segments[str(seq_num)] = text
             segment_data = (stored_at, segments)
         if len(segments) == total_segments:
-            text = ''.join(v for k, v in sorted(segments.items()))
+            text = ''.join(v for k, v in sorted(segments.items(), key=lambda item: int(item[0])))
             if deliver_sm.short_message:
                 deliver_sm.short_message = text
             else:
